@@ -1,8 +1,64 @@
-// Build script of the E1 engine: carries /repo/entrait_macros/src/lib.rs (the only file of the
-// macro crate that touches `proc_macro`) over to `proc_macro2`, and points every `mod x;` it
-// declares at the real source file of the working tree, so that the harness compiles the
-// *current* macro sources, not a copy.
+// Build script of the E1 engine: lets the harness compile the *current* macro sources of the checkout,
+// not a copy.  `entrait_macros/src/lib.rs` is the only file of the macro crate that touches `proc_macro`;
+// it is included almost verbatim (inner attributes, `extern crate proc_macro` and the
+// `#[proc_macro_attribute]` markers are dropped, every `mod x;` is pointed at the real source file) after
+// two shim modules that stand in for what a proc-macro crate gets from the compiler:
+//   * `proc_macro::TokenStream` is `proc_macro2::TokenStream`;
+//   * `syn::parse_macro_input!` / `syn::parse` (which take the compiler's token stream) are spelled
+//     `entrait_verif_parse_macro_input!` (same arms, on `proc_macro2::TokenStream`) / `syn::parse2`.
+// So the plumbing of lib.rs may be restructured freely without breaking the engine.
 use std::{env, fs, path::PathBuf};
+
+const SHIM: &str = r#"
+#[allow(unused_imports, dead_code)]
+mod proc_macro {
+    pub use ::proc_macro2::TokenStream;
+}
+#[allow(unused_macros)]
+macro_rules! entrait_verif_parse_macro_input {
+    ($tokenstream:ident as $ty:ty) => {
+        match ::syn::parse2::<$ty>($tokenstream) {
+            Ok(data) => data,
+            Err(err) => {
+                return ::proc_macro2::TokenStream::from(err.to_compile_error());
+            }
+        }
+    };
+    ($tokenstream:ident with $parser:path) => {
+        match ::syn::parse::Parser::parse2($parser, $tokenstream) {
+            Ok(data) => data,
+            Err(err) => {
+                return ::proc_macro2::TokenStream::from(err.to_compile_error());
+            }
+        }
+    };
+    ($tokenstream:ident) => {
+        match ::syn::parse2($tokenstream) {
+            Ok(data) => data,
+            Err(err) => {
+                return ::proc_macro2::TokenStream::from(err.to_compile_error());
+            }
+        }
+    };
+}
+"#;
+
+fn mod_decl(t: &str) -> Option<(&str, &str)> {
+    // `mod x;`, `pub mod x;`, `pub(crate) mod x;`  ->  (visibility prefix, name)
+    let t = t.trim_end();
+    let body = t.strip_suffix(';')?;
+    let pos = body.find("mod ")?;
+    let (vis, rest) = body.split_at(pos);
+    let vis = vis.trim();
+    if !(vis.is_empty() || vis == "pub" || (vis.starts_with("pub(") && vis.ends_with(')'))) {
+        return None;
+    }
+    let name = rest["mod ".len()..].trim();
+    if name.is_empty() || !name.chars().all(|c| c.is_alphanumeric() || c == '_') {
+        return None;
+    }
+    Some((vis, name))
+}
 
 fn main() {
     let repo = env::var("ENTRAIT_REPO").unwrap_or_else(|_| "/repo".to_string());
@@ -12,53 +68,30 @@ fn main() {
     println!("cargo:rerun-if-changed={}", lib.display());
     let text = fs::read_to_string(&lib).expect("read lib.rs");
 
-    let mut out = String::new();
+    let mut out = String::from(SHIM);
     for line in text.lines() {
         let t = line.trim_start();
         if t.starts_with("//!") || t.starts_with("#![") {
             continue;
         }
-        if t.starts_with("extern crate proc_macro") {
+        if t.starts_with("extern crate proc_macro") || t.starts_with("#[proc_macro_attribute]") {
             continue;
         }
-        if t.starts_with("#[proc_macro_attribute]") {
-            continue;
-        }
-        if t.starts_with("use proc_macro::TokenStream") {
-            out.push_str("use proc_macro2::TokenStream;\n");
-            continue;
-        }
-        // `mod x;` -> `#[path = ".../x.rs"] mod x;`
-        if let Some(rest) = t.strip_prefix("mod ") {
-            if let Some(name) = rest.strip_suffix(';') {
-                let name = name.trim();
-                let f1 = src_dir.join(format!("{name}.rs"));
-                let f2 = src_dir.join(name).join("mod.rs");
+        if let Some((_vis, name)) = mod_decl(t) {
+            let f1 = src_dir.join(format!("{name}.rs"));
+            let f2 = src_dir.join(name).join("mod.rs");
+            if f1.exists() || f2.exists() {
                 let f = if f1.exists() { f1 } else { f2 };
                 out.push_str(&format!("#[path = \"{}\"]\npub mod {};\n", f.display(), name));
                 continue;
             }
         }
-        let mut l = line.replace("proc_macro::TokenStream", "proc_macro2::TokenStream");
-        // syn::parse_macro_input!(x as T)  ->  match syn::parse2::<T>(x) { .. }
-        while let Some(pos) = l.find("syn::parse_macro_input!(") {
-            let after = &l[pos + "syn::parse_macro_input!(".len()..];
-            let close = after.find(')').expect("unbalanced parse_macro_input");
-            let inner = &after[..close];
-            let mut parts = inner.splitn(2, " as ");
-            let var = parts.next().unwrap().trim().to_string();
-            let ty = parts.next().expect("parse_macro_input without `as`").trim().to_string();
-            let repl = format!(
-                "match syn::parse2::<{ty}>({var}) {{ Ok(v) => v, Err(e) => return e.to_compile_error() }}"
-            );
-            let end = pos + "syn::parse_macro_input!(".len() + close + 1;
-            l = format!("{}{}{}", &l[..pos], repl, &l[end..]);
-        }
+        let l = line
+            .replace("syn::parse_macro_input!", "entrait_verif_parse_macro_input!")
+            .replace("syn::parse::<", "syn::parse2::<")
+            .replace("syn::parse(", "syn::parse2(");
         out.push_str(&l);
         out.push('\n');
-    }
-    if out.contains("proc_macro::") || out.contains("parse_macro_input") {
-        panic!("E1 unavailable: lib.rs uses proc_macro in a way the rewrite does not cover");
     }
     let out_dir = PathBuf::from(env::var("OUT_DIR").unwrap());
     fs::write(out_dir.join("entrait_lib.rs"), out).unwrap();
